@@ -316,12 +316,15 @@ class Include(_Container):
         """ No need to provide any dependencies to include. """
         return []
 
-    def defined_symbols(self):
-        """ Generate collection of symbols delivered by this include. """
+    def defined_symbols(self, _visited=None):
+        """ Generate collection of symbols delivered by this include (each included file is walked once). """
+        _visited = set() if _visited is None else _visited
         for member in self.members:
             if isinstance(member, Include):
-                for symbol in member.defined_symbols():
-                    yield symbol
+                if member.name not in _visited:
+                    _visited.add(member.name)
+                    for symbol in member.defined_symbols(_visited):
+                        yield symbol
             else:
                 yield member
 
@@ -435,26 +438,26 @@ def topological_sort(nodes):
                 raise ModelError("definition of '%s' depends on itself (cyclic dependency)" % nodes[index].name)
 
 
-def _make_types_index(nodes_):
-    """ Creates flat dictionary that maps model objects to its name. """
-    included = set()
+def _make_types_index(nodes_, included=None):
+    """ Creates flat dictionary that maps model objects to its name (each included file is walked once). """
+    included = set() if included is None else included
     for node_ in nodes_:
         if isinstance(node_, Include):
             if node_.name not in included:
                 included.add(node_.name)
-                for included_name, included_type in _make_types_index(node_.members):
+                for included_name, included_type in _make_types_index(node_.members, included):
                     yield included_name, included_type
         else:
             yield node_.name, node_
 
 
-def _collect_constants(nodes_, constants=None):
+def _collect_constants(nodes_, constants=None, included=None):
     constants = constants or {}
-    included = set()
+    included = set() if included is None else included
     for node_ in nodes_:
         if isinstance(node_, Include) and node_.name not in included:
             included.add(node_.name)
-            constants.update(_collect_constants(node_.members, constants))
+            constants.update(_collect_constants(node_.members, constants, included))
 
         elif isinstance(node_, Constant):
             constants[node_.name] = node_.eval_int(constants)
@@ -534,11 +537,12 @@ def evaluate_stiffness_kinds(nodes):
             node.calc_wire_stiffness()
 
 
-def evaluate_sizes(nodes, warn=null_warn):
+def evaluate_sizes(nodes, warn=null_warn, _included=None):
     """
     Adds byte_size and alignment to Struct, StructMember, Union, UnionMember.
-    Requires cross referenced nodes and evaluated kinds.
+    Requires cross referenced nodes and evaluated kinds. Each included file is walked once.
     """
+    _included = set() if _included is None else _included
 
     def evaluate_node_size(node_, parent, member):
         while isinstance(node_, Typedef) and node_.definition:
@@ -632,8 +636,9 @@ def evaluate_sizes(nodes, warn=null_warn):
         elif isinstance(node, Union):
             if evaluate_members_sizes(node):
                 evaluate_union_size(node)
-        elif isinstance(node, Include):
-            evaluate_sizes(node.members, warn)
+        elif isinstance(node, Include) and node.name not in _included:
+            _included.add(node.name)
+            evaluate_sizes(node.members, warn, _included)
 
 
 def partition(members):
@@ -700,10 +705,12 @@ def validate_unique_names(nodes):
         for node_ in nodes_:
             if isinstance(node_, Include):
                 """ outputs are named after the file: two different files of one name cannot both be used """
-                known = included.setdefault(node_.name, node_)
-                if known is not node_ and known != node_:
+                known = included.get(node_.name)
+                if known is None:
+                    included[node_.name] = node_
+                    visit(node_.members, False)
+                elif known is not node_ and known.members is not node_.members and known != node_:
                     raise ModelError("two different files named '%s' are included" % node_.name)
-                visit(node_.members, False)
             else:
                 define(node_.name, node_, own)
                 if isinstance(node_, Enum):
